@@ -16,6 +16,22 @@ def special_inputs():
     def add(files, main="m"):
         S.append({"files": files, "main": main})
     add({"m": "x := 1"}, "absent")
+    # found by the thorough tier: bounded but very long macro expansion (see the note in the file); short watchdog periods here, the
+    # point is the classification "passes still advancing" (no verdict) as opposed to "hang"
+    import os
+    from common import VERIF
+    sf = json.load(open(os.path.join(VERIF, "corpus", "c02", "slow_selffeed.json")))
+    S.append({"files": sf["files"], "main": sf["main"], "watch": 20, "ext": 1})
+    # file names are arbitrary keys: a supplied file that carries the name of the hidden standard-macro file
+    add({"m": "", "__standards__": "x0 := RUN nope WITH 1 END"})
+    add({"m": "x := y + 1", "__standards__": ""})
+    add({"m": "x := 1; GOTO nowhere", "__standards__": "x0 := 1"})
+    add({"m": 'include "__standards__"\nx := 1', "__standards__": "x0 := RUN nope WITH 1 END"})
+    add({"__standards__": "x0 := 1 +"}, "__standards__")
+    add({"__standards__": "y := RUN g WITH 2 END"}, "__standards__")
+    add({"m": "x := 1", "-": "y := RUN g WITH 2 END"}, "-")
+    add({"m": 'include "-"', "-": "y := RUN g WITH 2 END\n\n\nGOTO q"})
+    add({"m": 'include "#root_file_context"\nGOTO q', "#root_file_context": "GOTO z"})
     add({}, "m")
     add({"m": ""})
     add({"m": "\n\n"})
@@ -153,6 +169,9 @@ def run(chk):
     inputs += by
     mu = mutated_programs(chk.seed, 2500 if chk.thorough else 500)
     inputs += mu
+    st = [gen.gen_static_error(chk.seed * 811 + i) for i in range(3000 if chk.thorough else 600)]
+    inputs += st
+    chk.add("multi_file_static_error_inputs", len(st))
     chk.add("special_inputs", len(sp))
     chk.add("byte_string_inputs", len(by))
     chk.add("mutated_program_inputs", len(mu))
@@ -164,6 +183,7 @@ def run(chk):
     # generous limit (x50 over the measured worst case) before it is called a hang.
     th_plain = build("plain")
     events = {}
+    progressing = []
     slow = [x for x in inputs if x.get("slow")]
     todo = [x for x in inputs if not x.get("slow")]
     rounds = 0
@@ -179,6 +199,16 @@ def run(chk):
             begun = [x["begin"] for x in recs if "begin" in x]
             unfinished = [b for b in begun if b not in events]
             bad = inputs[unfinished[-1]] if unfinished else None
+            if rc == 76 and bad is not None:
+                # macro expansion still advancing through its passes after three watchdog periods: given up, no verdict either way -
+                # unless more passes were begun than the budget allows
+                rec = next((x for x in recs if "slow" in x), {})
+                if rec.get("passes", 0) > 1024:
+                    chk.violation("c02:budget:%s" % json.dumps(bad, sort_keys=True)[:300], "Theo::compile began %d macro passes on one input (budget 1024): %s"
+                                  % (rec["passes"], json.dumps(bad)[:600]), {"input": bad})
+                progressing.append((bad, rec.get("passes")))
+                again += [x for x in part if x["i"] not in events and x["i"] != bad["i"]]
+                continue
             if rc == 75 and bad is not None:
                 slow.append(bad)
                 again += [x for x in part if x["i"] not in events and x["i"] != bad["i"]]
@@ -191,15 +221,20 @@ def run(chk):
                              err[-2500:]), {"kind": kind, "input": bad, "stderr": err[-5000:]})
         todo = again
     for bad in slow:
-        recs, rc, err = run_th(th_plain, ["compile"], [dict(bad, watch=1000)], timeout=1100)
+        recs, rc, err = run_th(th_plain, ["compile"], [dict(bad, watch=1000, ext=0)], timeout=1100)
         got = next((x for x in recs if "ok" in x), None)
         if got is not None and rc == 0:
             events[bad["i"]] = got
+        elif rc == 76:
+            progressing.append((bad, next((x for x in recs if "slow" in x), {}).get("passes")))
         else:
             chk.violation("c02:abort:timeout:%s" % json.dumps(bad, sort_keys=True)[:300],
-                          "Theo::compile did not return within 120 s on the sanitizer build nor within 1000 s on the plain build (exit %s) on input %s"
+                          "Theo::compile did not return within 120 s on the sanitizer build nor within 1000 s on the plain build, and no macro pass was completed in that time (exit %s), on input %s"
                           % (rc, json.dumps(bad)[:800]), {"kind": "timeout", "input": bad})
     chk.add("inputs_slower_than_watchdog_on_sanitizer_build", len(slow))
+    chk.add("inputs_given_up_while_macro_passes_were_advancing", len(progressing))
+    if progressing:
+        chk.sample({"given_up_while_progressing": progressing[0][0], "passes_begun": progressing[0][1]})
     # TLC validates the result shapes (TheoIface!ResultOK), in parallel batches
     evs = []
     for i in sorted(events):
@@ -251,7 +286,7 @@ def run(chk):
     chk.cov["rule"] = ("inputs: every state of the TheoParse grammar automaton within the bounds (sentences, viable prefixes cut off by EOF, "
                        "refused one-token extensions, also followed by a valid continuation), hand-written truncations and stray-token "
                        "inputs, DEFINE cut off at every position, random byte strings and word soups, 1-4 token mutations of generated "
-                       "programs with macros and includes; all compiled on the ASan/UBSan build with a 1 GB stack; non-trivial/distinct = "
+                       "programs with macros and includes, generated multi-file sources whose only faults are static (unset mark, unknown program); all compiled on the ASan/UBSan build with a 1 GB stack; non-trivial/distinct = "
                        "distinct result shapes (ok flag, first three error types and location classes)")
     chk.sample({"input": inputs[len(inputs) // 2], "result": evs[len(evs) // 2] if evs else None})
     chk.assumptions += ["NUL bytes excluded; inputs <= 64 KB", "leaks are observed by LeakSanitizer at process exit per batch",
